@@ -307,10 +307,51 @@ def _reconfigure(case, env, pm, mk, T):
     return None
 
 
+def examine_reapply(case):
+    """Compiled queries are kept, the caller changes the value in place (what an embedded '$' query refers to), and
+    every entry point is used again: stored compiled queries must agree with one-shot calls, which compile afresh."""
+    import jsonpath_rfc9535 as jp
+    from vlib.gen import values as V
+    doc = V.fresh(case["doc"])
+    q = case["q"]
+    env = jp.JSONPathEnvironment()
+    try:
+        stored = {"env": env.compile(q), "module": jp.compile(q)}
+    except Exception:  # noqa: BLE001 - validity is not this case's business
+        return None
+    lst = lambda it: list(it)  # noqa: E731
+
+    def pm():
+        out = {"env.compile.finditer": ("list", lambda q_, d: lst(env.compile(q_).finditer(d))),
+               "env.find": ("list", lambda q_, d: lst(env.find(q_, d))),
+               "module.find_one": ("one", lambda q_, d: jp.find_one(q_, d))}
+        for tag, cq in stored.items():
+            out[f"stored-{tag}.find"] = ("list", lambda q_, d, cq=cq: lst(cq.find(d)))
+            out[f"stored-{tag}.apply"] = ("list", lambda q_, d, cq=cq: lst(cq.apply(d)))
+            out[f"stored-{tag}.finditer"] = ("list", lambda q_, d, cq=cq: lst(cq.finditer(d)))
+            out[f"stored-{tag}.find_one"] = ("one", lambda q_, d, cq=cq: cq.find_one(d))
+        return out
+    f = agree(pm(), q, doc, "first use")
+    if f:
+        return f
+    for step, (key, value) in enumerate(case["mutations"]):
+        try:
+            doc[key] = V.fresh(value)
+        except (IndexError, KeyError, TypeError):
+            continue
+        f = agree(pm(), q, doc, f"after the caller's in-place change #{step + 1} ({key!r} := {value!r})")
+        if f:
+            f["bucket"] = "reapply:" + f["bucket"].split(":", 1)[1]
+            return f
+    return None
+
+
 def examine(case):
     global _PATHS
     if case.get("kind") == "reconfigure":
         return examine_reconfigure(case)
+    if case.get("kind") == "reapply":
+        return examine_reapply(case)
     if case.get("kind") == "lifetime":
         return agree(lifetime_paths(), case["q"], get_doc(case), "nothing but the object in use keeps its environment alive")
     if _PATHS is None:
@@ -345,6 +386,11 @@ def examine(case):
                 return fail(f"find_one-differs:{name}", f"{name}({q!r}) is not the first node of finditer (or None)",
                             repr(want), repr(o))
     return None
+
+
+def M_quote(name):
+    from vlib.ref import normpath
+    return normpath.render_name(name)
 
 
 def _show(o):
@@ -415,6 +461,18 @@ def run_shard(spec, shard):
             f = examine(case)
             if f:
                 shard.fail(f["bucket"], case, f)
+        elif k < 0.4 and isinstance(doc, (dict, list)) and doc:
+            key = r.choice(list(doc)) if isinstance(doc, dict) else r.randrange(len(doc))
+            R = "$[%s]" % (M_quote(key) if isinstance(key, str) else key)
+            expr = r.choice(["@ == %s", "@ != %s", "@.a < %s", "%s", "!%s", "count(%s.*) > 1", "length(%s) == 2", "@ != %s && @", "@.a == %s.a", "%s == @.b",
+                             "%s[0] == @", "@[?@ == %s]"]) % R
+            rq = r.choice(["$[?%s]", "$[?%s]", "$..[?%s]", "$.*[?%s]"]) % expr
+            pool = [0, 1, 2, 5, -1, "a", "b", "", None, True, False, [], [1, 2], {"a": 1}, 1.5, [0], {"a": "a", "b": 1}]
+            case = {"kind": "reapply", "q": rq, "doc": doc, "mutations": [(key, r.choice(pool)) for _ in range(r.randint(1, 3))]}
+            shard.case(key=("reapply", rq, doc, repr(case["mutations"])), nontrivial=True, classes={"reapply-after-in-place-change"}, sample={"kind": "reapply", "q": rq})
+            f = examine(case)
+            if f:
+                shard.fail(f["bucket"], case, f)
         elif k < 0.44:
             lq = text if r.random() < 0.6 else r.choice(["$[?length(@.a) > 0]", "$..[?count(@.*) > 1]", "$[?match(@.a, 'a.*')]", "$[?search(@.b, '[a-z]')]",
                                                          "$[?value(@.*) == 1]", "$.*[?length(@) >= 1]", "$[?nope(@)]", "$[?length(@)]"])
@@ -434,7 +492,7 @@ def run_shard(spec, shard):
 
 def minimise(case, failure, tier):
     bucket = failure["bucket"]
-    if case.get("kind") in ("reconfigure", "lifetime"):
+    if case.get("kind") in ("reconfigure", "lifetime", "reapply"):
         return case, failure
     cur = dict(case)
 
